@@ -179,3 +179,82 @@ pub fn float_conv(x: Decimal) -> Option<f64> {
     use rust_decimal::prelude::ToPrimitive;
     x.to_f64()
 }
+
+// ---------------------------------------------------------------- engine controls (string synthesis, pipelines, effects)
+
+/// strsyn: must yield exactly the two strings `X {}` and `X {} Y`
+pub fn strsyn_two_alternatives(a: &str, flag: bool) -> String {
+    let mut s = format!("X {}", a);
+    if flag {
+        push_suffix(&mut s);
+    }
+    s
+}
+
+fn push_suffix(s: &mut String) {
+    s.push(' ');
+    s.push_str("Y");
+}
+
+/// pipeline: the loop body runs under `e.0 == k` (filter) and `e.1 <= 30` (take_while), starting at index 1
+pub fn pipeline_guards(v: &[(u32, u32)], k: u32) -> u32 {
+    let mut n = 0u32;
+    for (_i, e) in v
+        .iter()
+        .enumerate()
+        .skip(1)
+        .filter(|(_, e)| e.0 == k)
+        .take_while(|(_, e)| e.1 <= 30)
+    {
+        n = n.wrapping_add(e.1);
+    }
+    n
+}
+
+pub enum RowKind {
+    Keep(u32),
+    Drop,
+    Twice(u32),
+}
+
+pub enum Outcome {
+    Emit(u32),
+    Nothing,
+}
+
+fn to_outcome(r: RowKind) -> Outcome {
+    match r {
+        RowKind::Keep(x) => Outcome::Emit(x),
+        RowKind::Twice(x) => Outcome::Emit(x),
+        RowKind::Drop => Outcome::Nothing,
+    }
+}
+
+pub struct Sink {
+    pub out: Vec<u32>,
+    pub dropped: usize,
+}
+
+impl Sink {
+    fn record(&mut self, o: Outcome) {
+        match o {
+            Outcome::Emit(x) => self.out.push(x),
+            Outcome::Nothing => self.dropped += 1,
+        }
+    }
+}
+
+/// effsyn: per row kind — Keep pushes once, Twice pushes twice (the second push is in the loop body), Drop counts
+pub fn effsyn_rows(rows: Vec<RowKind>) -> Sink {
+    let mut sink = Sink { out: Vec::new(), dropped: 0 };
+    for r in rows {
+        let twice = matches!(r, RowKind::Twice(_));
+        let extra = if let RowKind::Twice(x) = &r { *x } else { 0 };
+        let o = to_outcome(r);
+        sink.record(o);
+        if twice {
+            sink.out.push(extra);
+        }
+    }
+    sink
+}
